@@ -56,10 +56,17 @@ def gen_line(rng, n, monotone_p=0.7, nan_p=0.0):
     return [NAN if (nan_p and rng.random() < nan_p) else k / 8.0 for k in ks]
 
 
+# offsets that are not dyadic and carry more than 7 decimals: an observation strictly between two thresholds whose decimal rounding
+# moves it (down or up); the model receives the exact rational value of the float
+OFFSETS = [1 / 3, 0.1, float(np.float32(0.7)), 3.3e-8, 0.2000000049, 0.49999999]
+
+
 def gen_obs_value(rng, ths, nan_p=0.1):
     r = rng.random()
     if r < nan_p:
         return NAN
+    if r < nan_p + 0.1:
+        return rng.randint(ths[0] - 1, ths[-1]) / 2.0 + rng.choice(OFFSETS)
     if r < 0.45:
         return rng.choice(ths) / 2.0                      # on a forecast threshold
     if r < 0.8:
@@ -397,6 +404,28 @@ def corpus(ctx):
                           str(k["expect"]), got)
 
 
+def probe_nondyadic_obs(ctx):
+    """observations that are not on any threshold and are not decimal-round numbers (4/3, float32(2.7), ...): the grid must contain the
+    observation itself, and the observation CDF must jump exactly there"""
+    obs_vals = [4 / 3, float(np.float32(2.7)), 1 / 3, 2.1, 1.00000004, 2.99999996, -0.3333333333]
+    fc = xr.DataArray(np.array([[0.0, 0.25, 0.5, 1.0], [0.125, 0.125, 0.75, 0.875]]), dims=["a", TD], coords={"a": [0, 1], TD: [0.0, 1.0, 2.0, 3.0]})
+    for ov in obs_vals:
+        ob = xr.DataArray([ov, ov], dims=["a"], coords={"a": [0, 1]})
+        for f in FILLS:
+            for im in ("exact", "trapz"):
+                c = dict(fcst=fc, obs=ob, weight=None, add=None, sizes={"a": 2}, wkind="probe", bad=None,
+                         opt=dict(fcst_fill_method=f, threshold_weight_fill_method="forward", integration_method=im, propagate_nans=True))
+                tie_crps(ctx, c)
+                ctx.count("probe_nondyadic_obs")
+    # several different non-dyadic observations in one call (they all enter the common grid)
+    ob = xr.DataArray(obs_vals[:2], dims=["a"], coords={"a": [0, 1]})
+    for im in ("exact", "trapz"):
+        c = dict(fcst=fc, obs=ob, weight=None, add=[2.5000000049], sizes={"a": 2}, wkind="probe", bad=None,
+                 opt=dict(fcst_fill_method="linear", threshold_weight_fill_method="forward", integration_method=im, propagate_nans=True))
+        tie_crps(ctx, c)
+        brier_tie_and_trapz(ctx, c)
+
+
 def partition(ctx, c):
     """complementary weights w and 1-w: results add up to the unweighted score over the same threshold grid"""
     P = S()
@@ -604,6 +633,7 @@ def replay(ctx, obj):
 
 def run(ctx):
     corpus(ctx)
+    probe_nondyadic_obs(ctx)
     sweep(ctx, full=(ctx.tier == "thorough"))
     n = ctx.n(330, 5000)
     for i in range(n):
